@@ -33,7 +33,7 @@ pub proof fn lemma_fold_max_is_the_maximum(init: int, told: Seq<int>)
       old(w).height >= old(w).height_read
 //@ ensures#never_decreases [C20,C04]
       final(w).height >= old(w).height && final(w).height >= final(w).height_read
-//@ ensures#leaves_the_max_of_the_value_found_and_the_new_height [C20]
+//@ ensures#leaves_the_max_of_the_value_found_and_the_new_height [C20,C04]
 //    one critical section: the cell ends at max(value found under the lock, new height)
       final(w).height == (if new_height as int > final(w).height_read { new_height as int } else { final(w).height_read })
       && final(w).height_read >= old(w).height
@@ -47,13 +47,13 @@ pub proof fn lemma_fold_max_is_the_maximum(init: int, told: Seq<int>)
 //@ implicit [C06,C20]
 //@ requires#start
       old(w).height >= old(w).height_read
-//@ ensures#only_through_update_height [C20]
+//@ ensures#only_through_update_height [C20,C04]
 //    never below what was there before, nor below what any of its critical sections found
       final(w).height >= old(w).height && final(w).height >= final(w).height_read
-//@ ensures#applies_the_polled_height [C20]
+//@ ensures#applies_the_polled_height [C20,C04]
 //    a successful poll leaves the height at least at what the node reported
       r is Ok ==> final(w).height >= final(w).last_polled
-//@ ensures#never_below_the_last_height_polled [C20]
+//@ ensures#never_below_the_last_height_polled [C20,C04]
 //    a failed poll changes neither the cell nor what counts as polled
       old(w).height >= old(w).last_polled ==> final(w).height >= final(w).last_polled
 //@ end
@@ -63,7 +63,7 @@ pub proof fn lemma_fold_max_is_the_maximum(init: int, told: Seq<int>)
 //@ implicit [C06,C20]
 //@ requires#start
       old(w).height >= old(w).height_read
-//@ ensures#only_through_update_height [C20]
+//@ ensures#only_through_update_height [C20,C04]
       final(w).height >= old(w).height && final(w).height >= final(w).height_read && final(w).height >= block.height as int
 //@ end
 
@@ -108,12 +108,12 @@ pub proof fn lemma_fold_max_is_the_maximum(init: int, told: Seq<int>)
       old(w).height >= old(w).last_polled
 //@ ensures#never_decreases [C20,C04]
       final(w).height >= old(w).height
-//@ ensures#never_below_the_last_height_polled [C20]
+//@ ensures#never_below_the_last_height_polled [C20,C04]
       final(w).height >= final(w).last_polled
 //@ loop 0
-//@ invariant#never_below_the_last_height_polled [C20]
+//@ invariant#never_below_the_last_height_polled [C20,C04]
       w.height >= w.last_polled
-//@ invariant#height_only_grows [C20]
+//@ invariant#height_only_grows [C20,C04]
       w.height >= old(w).height && w.height >= w.height_read
 //@ invariant#every_wakeup_polled [C20]
       p.sleeps == p.polls
